@@ -60,6 +60,10 @@ type vItem struct {
 	// one path per subset of optional claims.
 	has   []bool
 	inner *vItem // tag content
+	// maps only: one optional member under a TEXT key (an unknown extension member)
+	tkey  string
+	telem *vItem
+	thas  bool
 }
 
 // put appends a map entry that is present iff present
@@ -379,6 +383,27 @@ func (l3DM) Unmarshal(data []byte, v interface{}) error {
 		}
 		*p = out
 		return nil
+	case *map[int]cbor.RawMessage:
+		// an integer-keyed map kept undecoded: a member under a key that is not an integer
+		// cannot be stored
+		m := l3untag(it)
+		if m.kind == ikNull {
+			*p = nil
+			return nil
+		}
+		if m.kind != ikMap || m.thas {
+			return l3typeErr()
+		}
+		out := map[int]cbor.RawMessage{}
+		for i, e := range m.elems {
+			if m.has[i] {
+				out[int(m.keys[i])] = cbor.RawMessage(l3handle(e))
+			}
+		}
+		*p = out
+		return nil
+	case *string:
+		return l3decodeLeaf(l3untag(it), p)
 	case **SwComponent:
 		// a pointer destination: null sets it to nil; otherwise a nil pointer gets a fresh
 		// struct and a NON-NIL one is decoded INTO (members absent from the map keep their value)
@@ -735,7 +760,14 @@ func verifWriteItem(out []byte, it *vItem) []byte {
 				n++
 			}
 		}
+		if it.thas {
+			n++
+		}
 		out = verifWriteHead(out, 5, uint64(n))
+		if it.thas {
+			out = append(verifWriteHead(out, 3, uint64(len(it.tkey))), it.tkey...)
+			out = verifWriteItem(out, it.telem)
+		}
 		for i, e := range it.elems {
 			if !it.has[i] {
 				continue
